@@ -87,10 +87,11 @@ def counterStep (data : Frame) (acc : Nat × Frame) (pc : Nat × Nat) : Nat × F
 def checkCounters (counters : List (Nat × Nat)) (data : Frame) (errs : Nat) (cur : Frame) : Nat × Frame :=
   counters.foldl (counterStep data) (errs, cur)
 
+/-- a sequence of `PacketVar.set` calls -/
+def applyWrites (ws : List (Var × Nat)) (fr : Frame) : Frame := ws.foldl (fun fr ov => ov.1.set ov.2 fr) fr
+
 /-- the device sets its outputs one after the other -/
-def writeOuts : List Var → List Nat → Frame → Frame
-  | o :: os, v :: vs, fr => writeOuts os vs (o.set v fr)
-  | _, _, fr => fr
+def writeOuts (os : List Var) (vs : List Nat) (fr : Frame) : Frame := applyWrites (os.zip vs) fr
 
 /-- `dev.update()`: returns the new `current_data` and what the device read -/
 def devUpdate (c : Nat) (d : Dev) (cur : Frame) : Frame × List Nat :=
